@@ -412,7 +412,7 @@ pub fn m_life(before: &Snap, after: &Snap, step: &Step, ret: &Ret, track: &Track
         Op::Modify { id, price, vol, .. } => {
             before.orders[*id].status != ACTIVE || (price.is_none() && vol.is_none())
         }
-        Op::SetTime { .. } => true,
+        Op::SetTime { .. } | Op::Observe => true,
         _ => false,
     };
     if redundant && !masked_eq(before, after) {
@@ -451,6 +451,7 @@ pub fn op_kind(op: &Op) -> &'static str {
         Op::ResetTv => "reset-trade-vol",
         Op::Reload { .. } => "reload",
         Op::BadCreate { .. } => "offgrid-create",
+        Op::Observe => "observe",
     }
 }
 
